@@ -106,6 +106,10 @@ def ref_valid(coin, txd, idx, spk, amount, flags=STD):
             return S.sighash_bip143(tx, i, code, amt, ht | (fid << 8))
         ck = R.Checker(txd, idx, amount, legacy_f=leg, witness_f=wit)
         ck.forkid = True
+    elif coin == "GRS":
+        # Groestlcoin: single SHA256 everywhere in the signature hash
+        ck = R.Checker(txd, idx, amount, legacy_f=lambda tx, i, code, ht: S.sighash_legacy(tx, i, code, ht, h=S.sha256),
+                       witness_f=lambda tx, i, code, amt, ht: S.sighash_bip143(tx, i, code, amt, ht, h=S.sha256, hfinal=S.sha256))
     else:
         ck = R.Checker(txd, idx, amount)
     i = txd["ins"][idx]
@@ -174,7 +178,22 @@ class Scenario(object):
         else:
             raise ValueError(mech)
 
+    def mutate(self):
+        """an output amount changes after signing: signatures that commit to it go stale; which inputs are still valid is
+        judged by the reference, and the stale ones count as unsigned again (a later pass has to re-sign them)"""
+        self.tx.txs_out[0].coin_value -= 1
+        self.spent_outs_changed = True
+        after, _ = self.snapshot()
+        self.supplied_for = getattr(self, "supplied_for", [set() for _ in self.puz])
+        for i, (spk, p2s, listed, m) in enumerate(self.puz):
+            rv, _code = ref_valid(self.coin, after, i, spk, self.spent[i][0])
+            self.valid_before[i] = rv
+            if not rv:
+                self.supplied_for[i] = set()
+
     def step(self, keys, mech, idxset, ht=None):
+        if keys == "mutate":
+            return self.mutate()
         self.hts_used = getattr(self, "hts_used", set())
         self.hts_used.add(self.ht if ht is None else ht)
         before, unsp_before = self.snapshot()
@@ -300,8 +319,9 @@ class _Base(Driver):
 class Single(_Base):
     id = "C05.single"
     rule = ("every puzzle kind x 6 hash types x 7 coins x 3 key-supply mechanisms on a 2-input transaction (kind + P2PKH): a pass "
-            "with an explicitly empty input set, a pass for input 1 only, an all-inputs pass, then a repeated pass (identity), judged "
-            "by the reference interpreter under the standard flags")
+            "with an explicitly empty input set, a pass for input 1 only, an all-inputs pass, a repeated pass (identity), then an output "
+            "amount is changed (signatures committing to it go stale) and a last pass must re-sign; judged by the reference "
+            "interpreter under the standard flags")
 
     def __init__(self, tier, seed):
         _Base.__init__(self, tier, seed)
@@ -316,7 +336,8 @@ class Single(_Base):
                         keys = list(range(0, n)) + [5]
                         # an explicitly empty input set asks for nothing; then input 1 only; then everything; then again (identity)
                         yield dict(coin=coin, seed=self.seed, ht=ht, inputs=[[kind, m, n, 0], ["p2pkh", 1, 1, 5]],
-                                   passes=[[keys, mech, []], [keys, mech, [1]], [keys, mech, None], [keys, mech, None]])
+                                   passes=[[keys, mech, []], [keys, mech, [1]], [keys, mech, None], [keys, mech, None],
+                                           ["mutate", mech, None], [keys, mech, None]])
 
 
 class Pairs(_Base):
